@@ -103,6 +103,20 @@ def run(ctx: core.Ctx) -> int:
             for j, ident in enumerate(P[cls]):
                 g = by_cls[cls][j % len(by_cls[cls])]
                 cases += make_cases([g], rnd, 1, len(cases) + 1, ctx.seed, sweep=ident)
+    # identifiers whose spelling interacts with file-name handling go through EVERY cell of their class in both tiers:
+    # an identifier that continues another one after a dot (OLDAP-2.2.2 / OLDAP-2.2), identifiers ending in '+'
+    P = pools()
+    allids = set(P["cur"]) | set(P["dep"]) | set(P["exc"])
+    m = projmodel.spdx_classes()
+    special = sorted(k for k in m if m[k] in ("cur", "dep", "exc") and "." in k and k.rsplit(".", 1)[0] in m and not k.endswith("+"))
+    special = [k for k in special if k in allids]
+    by_cls1 = {}
+    for g in gens1:
+        by_cls1.setdefault(g["slots"][0]["cls"], []).append(g)
+    for ident in special:
+        for g in by_cls1.get(m[ident], []):
+            cases += make_cases([g], rnd, 1, len(cases) + 1, ctx.seed, sweep=ident)
+    ctx.notes["identifiers_continuing_another_identifier"] = special
     events = ctx.pmap(projmodel.run_project_case, cases, chunksize=16)
     for ev in events[:: max(1, len(events) // 4)][:4]:
         o = ev["obs"]
@@ -123,7 +137,8 @@ def run(ctx: core.Ctx) -> int:
         evaluations=len(events),
         distinct_nontrivial=len({e["label"] for e in events if '/none/absent' not in e["label"]}),
         rule="slot = class(5) x use(11) x provision(7): complete for one slot (TLC) x several real identifiers per class, "
-             "TLC-sampled two-slot cases, thorough: every identifier of the bundled SPDX lists once; non-trivial = the "
+             "TLC-sampled two-slot cases, identifiers that continue another identifier after a dot in every cell, thorough: every "
+             "identifier of the bundled SPDX lists once; non-trivial = the "
              "identifier is used or provided",
         mc_violations=mc_viol)
 
